@@ -2017,6 +2017,8 @@ where
             dset_writer
                 .write_sequence(self.into_tokens())
                 .context(PrintDataSetSnafu)?;
+            // complete the adapted stream, reporting any failure
+            dset_writer.flush().context(PrintDataSetSnafu)?;
 
             Ok(())
         } else {
@@ -2061,6 +2063,8 @@ where
             dset_writer
                 .write_sequence(self.into_tokens_with_options(required_options))
                 .context(PrintDataSetSnafu)?;
+            // complete the adapted stream, reporting any failure
+            dset_writer.flush().context(PrintDataSetSnafu)?;
 
             Ok(())
         } else {
